@@ -1515,6 +1515,8 @@ def _call_py_method(it, pm, args, kwargs, node, fi):
         if name == "update":
             x.update(args[0])
             return None
+        if name == "setdefault":
+            return x.setdefault(_hashable(args[0]), args[1] if len(args) > 1 else None)
         if name == "pop":
             return x.pop(_hashable(args[0]), *(args[1:]))
     if isinstance(x, tuple):
